@@ -234,9 +234,28 @@ namespace Track
 	}
       else if (state == DecodeState::LookingForRecord)
 	{
+	  const size_t search_start = thisbit;
 	  std::optional<unsigned int> found = find_record_address_mark();
 	  if (!found)
 	    break;
+	  // The data record must closely follow its ID field (a real
+	  // controller gives up after a few tens of bytes).  If we
+	  // accepted a data mark found further away, we would pair
+	  // this ID with the data of a later sector whose own ID
+	  // field we had skipped over.  64 FM-encoded bytes is several
+	  // times the standard gap, and much less than a sector.
+	  constexpr size_t max_id_to_data_bits = 64u * 16u;
+	  if (thisbit - search_start > max_id_to_data_bits)
+	    {
+	      if (verbose)
+		{
+		  std::cerr << "No data record follows the ID field of "
+			    << sec.address << "; dropping it\n";
+		}
+	      thisbit = search_start;
+	      state = DecodeState::LookingForAddress;
+	      continue;
+	    }
 	  const bool discard_record = *found == 0xF56A;
 	  if (verbose)
 	    {
